@@ -304,3 +304,31 @@ Check local_cap_from_config :
                                   /\ fs = map (fun f => (f, 0)) (gr_families g))
     /\ (forall v, In (CLLGR v) caps <-> exists l, llgr = Some l /\ v = map (fun ft => (fst ft, 0, snd ft)) l).
 Print Assumptions local_cap_from_config.
+
+(* (18) Global.peer_group is a hash map: whether a connection is admitted does not depend on its iteration order. *)
+Theorem admission_independent_of_group_order :
+  forall (g : global) (l : list group) (a : ipaddr) (r : role),
+    wf_global g -> addr_ok a -> (forall gr, In gr l <-> In gr (gl_groups g)) ->
+    (accept_connection (with_groups g l) a r <> Reject <-> accept_connection g a r <> Reject).
+Proof. exact C16_admission_independent_of_group_order. Qed.
+Check admission_independent_of_group_order :
+  forall (g : global) (l : list group) (a : ipaddr) (r : role),
+    wf_global g -> addr_ok a -> (forall gr, In gr l <-> In gr (gl_groups g)) ->
+    (accept_connection (with_groups g l) a r <> Reject <-> accept_connection g a r <> Reject).
+Print Assumptions admission_independent_of_group_order.
+
+(* (19) Observation, not a finding: with overlapping dynamic prefixes in two groups the settings a dynamic neighbour inherits (here the hold time, 30 or 90) depend on the map's iteration order; the property text does not say which group is its group. *)
+Theorem overlapping_groups_order_dependent :
+  exists (g : global) (a : ipaddr) (p1 p2 : peer) (g1 g2 : global) (s1 s2 : session),
+    accept_connection g a RPassive = Accept g1 s1
+    /\ accept_connection (with_groups g (rev (gl_groups g))) a RPassive = Accept g2 s2
+    /\ lookup a (gl_peers g1) = Some p1 /\ lookup a (gl_peers g2) = Some p2
+    /\ pe_hold p1 = 30 /\ pe_hold p2 = 90.
+Proof. exact C16_overlapping_groups_order_dependent. Qed.
+Check overlapping_groups_order_dependent :
+  exists (g : global) (a : ipaddr) (p1 p2 : peer) (g1 g2 : global) (s1 s2 : session),
+    accept_connection g a RPassive = Accept g1 s1
+    /\ accept_connection (with_groups g (rev (gl_groups g))) a RPassive = Accept g2 s2
+    /\ lookup a (gl_peers g1) = Some p1 /\ lookup a (gl_peers g2) = Some p2
+    /\ pe_hold p1 = 30 /\ pe_hold p2 = 90.
+Print Assumptions overlapping_groups_order_dependent.
